@@ -91,11 +91,12 @@ func EncodeCMPPContentAndSplit(ctx context.Context, content string, msgFmt datac
 		return [][]byte{encodedData}, actualMsgFmt, nil
 	}
 
-	if ceil(len(encodedData), perMsgLength) > maxLongSmsParts {
+	contents = splitWithUDHI(encodedData, perMsgLength, frameKey, encoder.Name())
+	if len(contents) > maxLongSmsParts {
 		return nil, 0, ErrTooManyParts
 	}
 
-	return splitWithUDHI(encodedData, perMsgLength, frameKey), actualMsgFmt, nil
+	return contents, actualMsgFmt, nil
 }
 
 // DecodeCMPPCContent decodes CMPP content using the provided dataCoding.
@@ -162,11 +163,12 @@ func EncodeSMPPContentAndSplit(ctx context.Context, content string, msgFmt datac
 		return [][]byte{encodedData}, actualMsgFmt, nil
 	}
 
-	if ceil(len(encodedData), perMsgLength) > maxLongSmsParts {
+	contents = splitWithUDHI(encodedData, perMsgLength, frameKey, encoder.Name())
+	if len(contents) > maxLongSmsParts {
 		return nil, 0, ErrTooManyParts
 	}
 
-	return splitWithUDHI(encodedData, perMsgLength, frameKey), actualMsgFmt, nil
+	return contents, actualMsgFmt, nil
 }
 
 // DecodeSMPPCContent decodes SMPP content using the provided dataCoding.
@@ -258,11 +260,28 @@ func encodeAndSplitGSM7Packed(content string, frameKey byte) ([][]byte, datacodi
 }
 
 // splitWithUDHI splits the long message according to perMsgLength and adds a 6-byte header for concatenated SMS.
-func splitWithUDHI(data []byte, perMsgLength int, frameKey byte) [][]byte {
+// A boundary never falls inside a character of the given coding (UTF-16 surrogate pair, multi-octet GB18030
+// character, GSM 7-bit escape pair), so that every part can be decoded on its own.
+func splitWithUDHI(data []byte, perMsgLength int, frameKey byte, coding datacoding.DataCoding) [][]byte {
 	total := len(data)
-	msgCount := ceil(total, perMsgLength)
+
+	// fix the boundaries first: moving a boundary backwards can require one part more than ceil(total/perMsgLength)
+	ends := make([]int, 0, ceil(total, perMsgLength)+1)
+	for begin := 0; begin < total; {
+		end := begin + perMsgLength
+		if end >= total {
+			end = total
+		} else {
+			end = charBoundary(coding, data, begin, end)
+		}
+		ends = append(ends, end)
+		begin = end
+	}
+
+	msgCount := len(ends)
 	contentBytes := make([][]byte, 0, msgCount)
-	for idx := 0; idx < msgCount; idx++ {
+	begin := 0
+	for idx, end := range ends {
 		contentByte := make([]byte, 0, perMsgLength+datacoding.UDHILength)
 
 		// append UDHI
@@ -273,21 +292,48 @@ func splitWithUDHI(data []byte, perMsgLength int, frameKey byte) [][]byte {
 		contentByte = append(contentByte, byte(msgCount)) // total
 		contentByte = append(contentByte, byte(idx+1))    // num
 
-		// split by perMsgLength
-		begin := idx * perMsgLength
-		end := (idx + 1) * perMsgLength
-		if end > total {
-			end = total
-		}
-		if begin == end {
-			continue
-		}
 		contentByte = append(contentByte, data[begin:end]...)
-
 		contentBytes = append(contentBytes, contentByte)
+		begin = end
 	}
 
 	return contentBytes
+}
+
+// charBoundary returns the largest cut position in (begin, end] that does not split a character.
+func charBoundary(coding datacoding.DataCoding, data []byte, begin, end int) int {
+	switch coding {
+	case datacoding.DataCodingUcs2, datacoding.DataCodingUcs2NoSign:
+		// UTF-16BE: do not separate a high surrogate from its low surrogate
+		if (end-begin)%2 == 0 && end-begin > 2 && data[end-2] >= 0xD8 && data[end-2] <= 0xDB {
+			return end - 2
+		}
+	case datacoding.DataCodingGSM7UnPacked:
+		// one septet per octet: do not separate the escape from the character it introduces
+		if end-begin > 1 && data[end-1] == gsm7encoding.EscapeSequence {
+			return end - 1
+		}
+	case datacoding.DataCodingGB18030:
+		// 1 octet (< 0x80), 2 octets, or 4 octets when the second octet is a digit 0x30..0x39
+		pos := begin
+		for pos < end {
+			width := 1
+			if data[pos] >= 0x81 && pos+1 < len(data) {
+				width = 2
+				if data[pos+1] >= 0x30 && data[pos+1] <= 0x39 {
+					width = 4
+				}
+			}
+			if pos+width > end {
+				break
+			}
+			pos += width
+		}
+		if pos > begin {
+			return pos
+		}
+	}
+	return end
 }
 
 // ceil: rounding up to the nearest integer.
